@@ -10,6 +10,7 @@ pub fn generate(scenario: &str, seed: u64, tier: &str) -> Value {
     match family {
         "proxy" => gen::gen_proxy(seed, prop, tier),
         "hostile" => crate::hostile::gen_c13(seed, tier),
+        "provision" => crate::provision::gen_c16(seed, tier),
         "keeper" => match prop {
             "C10" => crate::keeper::gen_c10(seed, tier),
             "C12" => crate::keeper::gen_c12(seed, tier),
@@ -61,7 +62,7 @@ pub async fn custom_step(run: &mut Run, _idx: usize, kind: &str, step: &Value) -
             true
         }
         other => {
-            if crate::hostile::custom_step(run, _idx, other, step).await {
+            if crate::hostile::custom_step(run, _idx, other, step).await || crate::provision::custom_step(run, _idx, other, step).await {
                 true
             } else {
                 crate::keeper::custom_step(run, _idx, other, step).await
@@ -76,6 +77,7 @@ pub async fn run(scenario: &str, seed: u64, plan: Value) -> Value {
     match family.as_str() {
         "proxy" => oracle::check_proxy(&mut run),
         "hostile" => crate::hostile::check_c13(&mut run),
+        "provision" => crate::provision::check_c16(&mut run),
         "keeper" => {
             oracle::check_proxy(&mut run);
             if run.plan["prop"] == "C09" {
